@@ -104,13 +104,19 @@ def h_signal(ctx, cfg):
     if cfg.get("alt"):
       _cmp(ctx, CascadeFilter([f, g])(iter(list(x)), zero=0), ref_filter(gb, ga, fx), "cascade-list-ctor", N)
     else:
-      _cmp(ctx, CascadeFilter(f, g)(list(x), zero=0), ref_filter(gb, ga, fx), "cascade-is-composition", N)
+      cas = CascadeFilter(f, g)
+      _cmp(ctx, cas(list(x), zero=0), ref_filter(gb, ga, fx), "cascade-is-composition", N)
+      cas.reverse(); cas[0] = f              # same length, other parts: [f, f]
+      _cmp(ctx, cas(list(x), zero=0), ref_filter(fb, fa, fx), "cascade-is-composition", N)
   elif op == "parallel":
     if cfg.get("alt"):
       _cmp(ctx, ParallelFilter(f, g)(iter(list(x)), zero=0), [p + q for p, q in zip(fx, gx)], "parallel-on-iterator", N)
       _cmp(ctx, ParallelFilter()(list(x), zero=0), [0] * N, "empty-parallel-is-zero", N)
     else:
-      _cmp(ctx, ParallelFilter(f, g)(list(x), zero=0), [p + q for p, q in zip(fx, gx)], "parallel-is-sum", N)
+      par = ParallelFilter(f, g)
+      _cmp(ctx, par(list(x), zero=0), [p + q for p, q in zip(fx, gx)], "parallel-is-sum", N)
+      par[0] = g                             # same length, other parts: [g, g]
+      _cmp(ctx, par(list(x), zero=0), [q + q for q in gx], "parallel-is-sum", N)
   elif op == "radd":
     # reflected operators with plain numbers on the left
     c = ctx.real("c")
@@ -155,8 +161,13 @@ def h_field(ctx, cfg):
       _cross(ctx, f / g, _rmul(fb, ga), _rmul(fa, gb), "quotient")
     if any(bool(c != 0) for c in fb.values()):
       _cross(ctx, f / f, {0: 1}, {0: 1}, "f-over-f-is-one")
-    _cross(ctx, CascadeFilter(f, g), _rmul(fb, gb), _rmul(fa, ga), "cascade-polynomials")
-    _cross(ctx, ParallelFilter(f, g), _radd(_rmul(fb, ga), _rmul(gb, fa)), _rmul(fa, ga), "parallel-polynomials")
+    cas, par = CascadeFilter(f, g), ParallelFilter(f, g)
+    _cross(ctx, cas, _rmul(fb, gb), _rmul(fa, ga), "cascade-polynomials")
+    _cross(ctx, par, _radd(_rmul(fb, ga), _rmul(gb, fa)), _rmul(fa, ga), "parallel-polynomials")
+    # the lists are mutable: after a part is replaced (same length) the polynomials are those of the parts held NOW
+    cas[1] = f; par[0] = g
+    _cross(ctx, cas, _rmul(fb, fb), _rmul(fa, fa), "cascade-polynomials")
+    _cross(ctx, par, _rscale(_rmul(gb, ga), 2), _rmul(ga, ga), "parallel-polynomials")
   elif law == "triple":
     h, hb, ha = _mk(ctx, "h", *cfg["h"], nz=nz)
     _cross(ctx, (f + g) + h, *_ratio(f + (g + h)), clause="sum-associative")
